@@ -441,6 +441,23 @@ def check_transition(hist, opdesc, idx, before_pool_snap, pool_before_len, pool,
         new = pool[-1][1]
         if new is target:
             V('post', 'same-object', 'the operation returned its operand instead of a new type')
+        if o['id'] in ('Array(T)', 'Iterable(T)') and new is not target:
+            # the collection is a collection of ITS operand: same members, same constraints (occurrence apart)
+            try:
+                member = list(new._type_info.values())[0]
+                skip = ('min_occurs', 'max_occurs', 'max_str_len', 'nullable', 'sqla_column_args', 'translations')
+                ma = dict((k, v) for k, v in _attr_items(member) if k not in skip)
+                ta = dict((k, v) for k, v in _attr_items(target) if k not in skip)
+                diff = sorted(k for k in set(ma) | set(ta) if ma.get(k) != ta.get(k))
+                if diff:
+                    V('post', 'collection-member-attributes:%s' % ','.join(diff)[:60], 'the member type of the new collection differs from the operand %s in %s' % (
+                        pool[idx][0], ['%s: %s -> %s' % (k, ta.get(k), ma.get(k)) for k in diff][:4]))
+                if is_complex(target) and not is_array(target):
+                    mf, tf = list(member.get_flat_type_info(member)), list(target.get_flat_type_info(target))
+                    if mf != tf:
+                        V('post', 'collection-member-fields', 'the member type of the new collection has fields %s, the operand %s has %s' % (mf, pool[idx][0], tf))
+            except Exception as e:
+                V('post', 'collection-member-raises:%s' % type(e).__name__, 'looking at the member type of the new collection raised %r' % (e,))
         if o['req']:
             for k, v in o['req'].items():
                 got = getattr(new.Attributes, k, None)
